@@ -324,7 +324,7 @@ theorem raise_gosub {f : Finder} {s s' : St} {c : Int} (h : raise f s c = .cont 
     | none => simp [hn] at h
     | some n => simp [hn] at h; subst h; rfl
 
-theorem resumeWith_gosub {f : Finder} {s s' : St} {t : Nat → Option Nat} (h : resumeWith f s t = .cont s') :
+theorem resumeWith_gosub {f : Finder} {s s' : St} {t : Nat → Option Nat} {lv : Bool} (h : resumeWith f s t lv = .cont s') :
     s'.gosub = s.gosub := by
   unfold resumeWith takeErr at h
   cases he : s.errAddr with
@@ -575,14 +575,14 @@ def resumed (s : St) (n : Nat) : St := { s with errCode := none, errAddr := none
   statement `e` belongs to),
 * `RESUME NEXT` at the least recorded statement address `> e` (the first instruction of the statement
   that follows), provided the binary search names the last position of `e` (see `finder_next`),
-* `RESUME label` at the label;
+* `RESUME label` at the label, leaving the procedures in progress (the return stack is emptied);
 each clears the error address and code, pops one handler context and touches nothing else. -/
 theorem resume_targets (f : Finder) (hs : f.addrs.Pairwise (· ≤ ·)) (hok : f.Ok) (ev : Ev) (s : St) {e : Nat}
     (he : s.errAddr = some e) :
     ((∃ x ∈ f.addrs, x ≤ e) → ∃ n, IsGreatestLE f.addrs e n ∧ stepInstr f .resume ev s = .cont (resumed s n)) ∧
     (LastOcc f.addrs e (f.bs e) → (∃ x ∈ f.addrs, e < x) →
       ∃ n, IsLeastGT f.addrs e n ∧ stepInstr f .resumeNext ev s = .cont (resumed s n)) ∧
-    (∀ l, stepInstr f (.resumeLabel (.addr l)) ev s = .cont (resumed s l)) := by
+    (∀ l, stepInstr f (.resumeLabel (.addr l)) ev s = .cont { resumed s l with ret := [] }) := by
   refine ⟨fun hex => ?_, fun hlast hex => ?_, fun l => ?_⟩
   · obtain ⟨n, hn, hg⟩ := (finder_current hs (hok e)).1 hex
     have : f.current e = some n := hn
@@ -649,7 +649,7 @@ theorem raise_inv {f : Finder} {s s' : St} {c : Int} (hinv : ErrInv s) (h : rais
       intro h1
       exact ⟨rfl, (hinv h1).2⟩
 
-theorem resumeWith_inv {f : Finder} {s s' : St} {t : Nat → Option Nat} (h : resumeWith f s t = .cont s') :
+theorem resumeWith_inv {f : Finder} {s s' : St} {t : Nat → Option Nat} {lv : Bool} (h : resumeWith f s t lv = .cont s') :
     ErrInv s' := by
   unfold resumeWith takeErr at h
   cases he : s.errAddr with
